@@ -38,13 +38,21 @@ PAIR = {0: ('left', 'right'), 1: ('bottom', 'top'), 2: ('back', 'front')}
 
 
 def jobs(tier):
+    """cfg = tuple of (axis, mode) with mode in 'both' | 'low' | 'high' : which faces of the axis carry the periodic flag.
+    An axis is periodic as soon as one of its two faces is flagged (both implementations agree on that reading)."""
+    import itertools
     out = []
     for c in MESH_CLASSES:
         d = DIM[c]
         axes = [a for a in range(d) if not (a == 0 and c in RADIAL)]
-        cfgs = [()] + [(a,) for a in axes]
-        if tier != 'quick' and len(axes) >= 2:
-            cfgs += [tuple(axes)]
+        cfgs = [()] + [((a, 'both'),) for a in axes]
+        if axes:
+            cfgs += [((axes[-1], 'low'),), ((axes[-1], 'high'),)]
+        if tier != 'quick':
+            for combo in itertools.product(('none', 'low', 'high', 'both'), repeat=len(axes)):
+                cfg = tuple((a, m) for a, m in zip(axes, combo) if m != 'none')
+                if cfg not in cfgs:
+                    cfgs.append(cfg)
         for cfg in cfgs:
             out.append((c, cfg, tier))
     return out
@@ -78,9 +86,14 @@ def job(args):
     d = w.dim
     obs, samples, units = [], [], set()
     per_faces = set()
-    for a in cfg:
-        per_faces |= set(PAIR[a])
-    cfgname = 'periodic=' + (','.join(AX[a] for a in cfg) if cfg else 'none')
+    for a, mode in cfg:
+        lo, hi = PAIR[a]
+        if mode in ('both', 'low'):
+            per_faces.add(lo)
+        if mode in ('both', 'high'):
+            per_faces.add(hi)
+    cfgname = 'periodic=' + (','.join(f"{AX[a]}:{m}" for a, m in cfg) if cfg else 'none')
+    cfg = tuple(a for a, _m in cfg)
 
     def ob(rule, construct, ok, detail='', loc=''):
         obs.append(dict(rule=rule, construct=construct, ok=bool(ok), detail=(f"[{cls} {cfgname}] " + str(detail))[:1400], loc=loc, nontrivial=True))
